@@ -36,7 +36,7 @@ def _work(job):
 
 
 def run_pairs(prop, gens, functions, assumptions, design_ref, rejected_is_violation=None,
-              level='translation_validation', extra=None):
+              level='translation_validation', extra=None, extra_fn=None):
   """gens: [(module, generator function name, n_quick, n_thorough)].  Each generator maps a
   seed to a list of pair specs (dicts for meta.validate_pair)."""
   t0 = time.time()
@@ -113,6 +113,8 @@ def run_pairs(prop, gens, functions, assumptions, design_ref, rejected_is_violat
   })
   if extra:
     out.coverage.update(extra)
+  if extra_fn:
+    extra_fn(out)
   out.assumptions = assumptions
   ne = counts.get('not_encodable', 0) + counts.get('rejected', 0)
   if total and ne > 0.5 * total:
